@@ -7,6 +7,7 @@
 # /tmp/vtmp should hold a copy of known_findings.json and a link to /verif/controls so that the
 # positive controls run against the patched tree too (a control that no longer fires is reported
 # as CHECKER-PROBLEM: a false alarm of the checker on a behaviour-preserving patch).
+# FAST=1 runs all properties in one process (mode all), without controls.
 # usage: check_patches.sh <root> <outdir> [jobs] [with-suite]
 root=$1; out=$2; jobs=${3:-3}; suite=${4:-}
 mkdir -p "$out"
@@ -20,6 +21,11 @@ one() {
   if ! (cd "$ws" && git apply --whitespace=nowarn "$pf" 2>>"$rep"); then echo "PATCH DOES NOT APPLY" >> "$rep"; rm -rf "$ws"; return; fi
   if ! (cd "$ws" && go build ./... >>"$rep" 2>&1); then echo "BUILD FAILS" >> "$rep"; rm -rf "$ws"; return; fi
   if [ -n "$suite" ]; then (cd "$ws" && go test -vet=off -count=1 ./... >/dev/null 2>&1) || echo "SUITE FAILS" >> "$rep"; fi
+  if [ -n "$FAST" ]; then
+    # one process: every rule once, violations of all properties (no controls, no evidence)
+    timeout 1200 /verif/bin/sqljsonlint -mode all -repo "$ws" 2>&1 | grep -E '^C[0-9]+ (VIOLATION rule|UNDECIDED|LOAD ERROR|ANALYSIS-FAILED|panic)|^(panic|goroutine )' | cut -c1-400 >> "$rep"
+    rm -rf "$ws"; echo "checked $name"; return
+  fi
   for i in $(seq -w 1 20); do
     timeout 600 /verif/bin/sqljsonlint -prop C$i -repo "$ws" -verif ${VTMP:-/tmp/vtmp} 2>&1 | grep -E '^(VIOLATION rule|UNDECIDED|LOAD ERROR|ANALYSIS-FAILED|CHECKER-PROBLEM|panic|goroutine )' | sed "s/^/C$i /" | cut -c1-400 >> "$rep"
   done
